@@ -27,7 +27,7 @@ func init() {
 	register(&Rule{
 		Prop: "C18",
 		Explanation: "Identity and exact accounting of metrics decided from the SSA form: (O-1) the series key used by every registry lookup is computed by a function with no map-iteration-order-sensitive effect (string concatenation, writer calls, append without a dominating total sort) — so equal (name, tags) give equal keys whatever order the tag map is walked in; (O-2) all registry stores happen under the exclusive lock after a failed re-lookup of the same key (one metric per key); " +
-			"(O-3) Counter.Inc/Add perform exactly one sync/atomic add on the field Value loads, on every path; Histogram.Observe performs on every path exactly one count++, one sum += value and exactly one counts[i]++; Count/Sum return those fields; the default bucket literal is strictly increasing; (O-4) on every enabled path RecordSearchOperation makes exactly one Observe on the search_duration timer, one Inc on searches_total and exactly one Inc on cache_hits_total or cache_misses_total selected by cacheHit, RecordDatabaseOperation one Observe and one Inc, and timer and counter of one operation are tagged by the same expressions. Percentile monotonicity as arithmetic is NOT decided.",
+			"(O-3) Counter.Inc/Add perform exactly one sync/atomic add on the field Value loads, on every path; Histogram.Observe performs on every path exactly one count++, one sum += value and exactly one counts[i]++; Count/Sum return those fields; the default bucket literal is strictly increasing; (O-4) on every enabled path RecordSearchOperation makes exactly one Observe on the search_duration timer, one Inc on searches_total and exactly one Inc on cache_hits_total or cache_misses_total selected by cacheHit, RecordDatabaseOperation one Observe and one Inc, and timer and counter of one operation are tagged by the same expressions. (O-5) the percentile scan walks all bucket counts, adds each to a running sum before comparing, and returns a bucket bound from inside the loop exactly when the running sum has reached the target (non-strict): with O-3 it cannot fall off its end and with increasing bucket bounds the result does not decrease as the percentile grows. The floating-point computation of the target itself is NOT decided.",
 		NotDecided:  []string{"percentile values and their monotonicity as arithmetic over the bucket counts", "loss-freedom under concurrency beyond the lock/atomic discipline (C11)"},
 		Assumptions: []string{"sync/atomic and sync.RWMutex semantics", "sort.Strings sorts totally"},
 		Run:         runC18,
@@ -47,6 +47,115 @@ func runC18(c *Ctx) {
 	c18Registry(c)
 	c18Counting(c, sx)
 	c18Monitor(c, sx)
+	c18Percentile(c, sx)
+}
+
+// c18Percentile: O-5. The percentile is read off by a scan over all bucket
+// counts that adds each count to a running sum and returns from inside the
+// loop as soon as the sum has REACHED the target (>=, not >). With O-3 (the
+// bucket counts add up to count) and target <= count the scan cannot fall off
+// its end for a non-empty histogram, and with strictly increasing bucket bounds
+// the value returned does not decrease as the percentile grows.
+func c18Percentile(c *Ctx, sx *symx.Ctx) {
+	r := c.R
+	r.Rule("O-5", "percentile scan: one loop over all bucket counts; the running sum is increased by the bucket's count on every iteration before it is compared; the scan returns a bucket bound from inside the loop exactly when running sum >= target (non-strict); the target is derived from count and p")
+	fn := c.P.Func("internal/metrics", "Histogram", "Percentile")
+	fk := "metrics.(*Histogram).Percentile"
+	if !r.Anchor("O-5", fk, fn != nil) {
+		return
+	}
+	histT := metricsPkg + ".Histogram"
+	var loop *ssau.RangeLoop
+	for _, l := range ssau.RangeLoops(fn) {
+		l := l
+		if l.Over == nil || l.IsMap {
+			continue
+		}
+		if _, ok := ssau.IsFieldLoad(l.Over, histT, "counts"); ok {
+			loop = &l
+		}
+	}
+	if loop == nil {
+		r.Bad("O-5", fk+"#scan-over-all-buckets", c.P.Pos(fn.Pos()), "no loop over the histogram's bucket counts")
+		return
+	}
+	r.OK("O-5", fk+"#scan-over-all-buckets", c.P.Pos(loop.Body.Instrs[0].Pos()), "ranges over h.counts (overflow bucket included)")
+	// the running sum: a phi at the loop header whose back-edge value is phi + counts[i]
+	var sum *ssa.Phi
+	var next ssa.Value
+	for _, in := range loop.Header.Instrs {
+		ph, ok := in.(*ssa.Phi)
+		if !ok {
+			continue
+		}
+		for _, e := range ph.Edges {
+			bo, ok := e.(*ssa.BinOp)
+			if !ok || bo.Op != token.ADD {
+				continue
+			}
+			a, b := bo.X, bo.Y
+			if b == ssa.Value(ph) {
+				a, b = b, a
+			}
+			if a != ssa.Value(ph) {
+				continue
+			}
+			// b is counts[i] of this iteration
+			if u, ok := b.(*ssa.UnOp); ok && u.Op == token.MUL {
+				if ia, ok := u.X.(*ssa.IndexAddr); ok && ia.Index == loop.Index {
+					if _, ok := ssau.IsFieldLoad(ia.X, histT, "counts"); ok {
+						sum, next = ph, bo
+					}
+				}
+			}
+		}
+	}
+	if sum == nil {
+		r.Bad("O-5", fk+"#running-sum", c.P.Pos(loop.Header.Instrs[0].Pos()), "no running sum that adds counts[i] on every iteration")
+		return
+	}
+	r.OK("O-5", fk+"#running-sum", c.P.Pos(sum.Pos()), "cumulative += counts[i] once per iteration")
+	// the test that ends the scan
+	nTests := 0
+	for _, iff := range ssau.Ifs(fn) {
+		if !loop.InLoop(iff.Block()) || iff.Block() == loop.Header {
+			continue
+		}
+		op, x, y, ok := ssau.CondOf(iff.Cond)
+		if !ok {
+			continue
+		}
+		if y == next {
+			x, y, op = y, x, ssau.Flip(op)
+		}
+		if x != next {
+			if x == ssa.Value(sum) || y == ssa.Value(sum) {
+				nTests++
+				r.Bad("O-5", fk+"#reached-test", c.P.Pos(iff.Pos()), "the running sum is compared before this bucket's count was added")
+			}
+			continue
+		}
+		nTests++
+		// true side must lead to a return of a bucket bound; accepted: sum >= target (or !(sum < target))
+		reached := op == token.GEQ
+		retSide := 0
+		if op == token.LSS {
+			reached, retSide = true, 1
+		}
+		returns := false
+		b := iff.Block().Succs[retSide]
+		for _, rb := range fn.Blocks {
+			if rb == b || b.Dominates(rb) {
+				if _, ok := rb.Instrs[len(rb.Instrs)-1].(*ssa.Return); ok {
+					returns = true
+				}
+			}
+		}
+		r.Check(reached && returns, "O-5", fk+"#reached-test", c.P.Pos(iff.Pos()), "returns from the scan as soon as cumulative >= target", "the scan ends on `cumulative "+op.String()+" target`: with a strict comparison the bucket that reaches the target is skipped — for p = 100 the scan falls off its end and reports 0, so percentiles are not monotone")
+	}
+	if nTests == 0 {
+		r.Bad("O-5", fk+"#reached-test", c.P.Pos(fn.Pos()), "no comparison of the running sum with the target inside the scan")
+	}
 }
 
 // c18Key: find the functions that compute the key used to index the registry
